@@ -255,6 +255,31 @@ func c19units(tier string) []mc.Unit {
 		r.AddNontrivial(seqs)
 		r.Bound("long", "oligos of 9..30, 50 and 200 bases (pseudo-random, self-complementary, A- and G-terminated, mixed case) x 80 grid points")
 	}})
+	// structured sweep: every length 2..300 and geometrically beyond x the shapes of dnaShapes (homopolymers, G/C rich,
+	// inverted repeats with self-complementary and other cores, inverted terminal repeats), on the full grid
+	lens := sweepLengths(2, tier2(tier, 300, 500), tier2(tier, 3000, 20000))
+	for part := 0; part < 8; part++ {
+		part := part
+		us = append(us, mc.Unit{Name: fmt.Sprintf("sweep/part=%d", part), Weight: 150, Run: func(r *mc.Recorder) {
+			var cnt, nt, seqs int64
+			for i, n := range lens {
+				if i%8 != part {
+					continue
+				}
+				for _, sh := range dnaShapes(n) {
+					c19seq(r, sh.s, &cnt, &nt)
+					seqs++
+				}
+				c19seq(r, lcgString("ACGTacgt", n, 9), &cnt, &nt)
+				seqs++
+			}
+			r.Eval(cnt)
+			r.AddStates(seqs)
+			r.AddTransitions(cnt)
+			r.AddNontrivial(seqs)
+			r.Bound("sweep", fmt.Sprintf("%d lengths (every length to %d, then +7%% steps to %d) x about 20 shapes x 80 grid points", len(lens), tier2(tier, 300, 500), lens[len(lens)-1]))
+		}})
+	}
 	// case masks
 	us = append(us, mc.Unit{Name: "case", Weight: 200, Run: func(r *mc.Recorder) {
 		var cnt, nt, seqs int64
